@@ -167,3 +167,8 @@ def run(ctx):
     ctx.check("C13.R3", "union and reference forms handled", ("union",) in T and ("reference",) in T, f.where(), "_to_parsing_canonical_form lacks list/str arms", "unions or names would produce no text")
     if rec:
         ctx.note("C13.R3", "records of kind 'error' are printed with type \"record\" (fastavro's documented choice; recorded, not judged)")
+
+    # ---- shared ----
+    ctx.borrow("C11", {"C11.R1": "C13.R4", "C11.R2": "C13.R5", "C11.R3": "C13.R6"}, "the canonical form writes the parsed schema's names: they are the specification's full names only if the parser computes, stores and resolves them per the naming rules")
+
+
